@@ -28,13 +28,13 @@ NextH == \/ \E c \in ConsIds : Do("subject_to", c, SubjectTo(c))
          \/ \E v \in Pvals : Do("set_value", ToString(v), SetValue(v))
          \/ \E g \in Gvals : Do("set_initial", ToString(g), SetInitial(g))
          \/ Do("sample", "", Sample) \/ Do("value", "", Value) \/ Do("jacobian", "", Jacobian)
-         \/ Do("solve", "", Solve)
+         \/ Do("solve", "", Solve) \/ Do("sol_sample", "", SolSample)
          \/ Do("save", "", Save)
 
 \* partition exhaustive runs by the first operation
 FirstCode == IF Len(hist) = 0 THEN 0
-             ELSE CHOOSE i \in 0..13 : hist[1].op = <<"subject_to", "clear_constraints", "add_objective", "method", "solver",
-                         "set_T", "set_t0", "set_value", "set_initial", "sample", "value", "jacobian", "solve", "save">>[i + 1]
+             ELSE CHOOSE i \in 0..14 : hist[1].op = <<"subject_to", "clear_constraints", "add_objective", "method", "solver",
+                         "set_T", "set_t0", "set_value", "set_initial", "sample", "value", "jacobian", "solve", "save", "sol_sample">>[i + 1]
 InPart == Len(hist) = 0 \/ FirstCode % Parts = Part
 
 Emit == (Len(hist) = Depth /\ InPart) => TLCSet(1, Append(TLCGet(1), [sc |-> [depth |-> Depth, n |-> Len(TLCGet(1))], hist |-> hist]))
